@@ -8,6 +8,9 @@ REPLAY = os.path.join(VERIF, "replay")
 KNOWN = os.path.join(VERIF, "known_findings.json")
 
 
+MAX_STATS = {"depth_bound", "preemption_bound"}
+
+
 class Result:
     def __init__(self):
         self.stats = {}
@@ -18,7 +21,7 @@ class Result:
 
     def merge(self, o):
         for k, v in o.stats.items():
-            self.stats[k] = self.stats.get(k, 0) + v
+            self.stats[k] = max(self.stats.get(k, 0), v) if k in MAX_STATS else self.stats.get(k, 0) + v
         self.samples += o.samples
         self.fails += o.fails
         self.infos += o.infos
@@ -37,7 +40,7 @@ def parse_output(text, origin, res, stat_max=()):
     for line in text.splitlines():
         if line.startswith("STAT "):
             _, k, v = line.split(None, 2)
-            if k in stat_max:
+            if k in stat_max or k in MAX_STATS:
                 res.stats[k] = max(res.stats.get(k, 0), int(v))
             else:
                 res.stats[k] = res.stats.get(k, 0) + int(v)
